@@ -1,8 +1,197 @@
-import GeffModel.PartialRead
-/-! # C09 — partial reads equal the same restriction of the full read (theorems: work in progress) -/
-namespace GeffProps.C09
-open Geff.PRead
+import GeffProofs.PartialRead
+/-! # C09 — partial reads equal the same restriction of the full read
 
-theorem C09_selMask_none (n : Nat) : selMask none n = List.replicate n true := rfl
+Property theorems only.  Model: `Geff.PRead` (`GeffModel/PartialRead.lean`) — `readNodeProps`,
+`readEdgeProps`, `loadPropToMemory`, `build` of `geff.core_io._base_read.GeffReader`, tied to the
+implementation by `harness/corr/C09.py`.  Specification: `Geff.PRead.restrict` (same file, 25
+lines): kept nodes in stored order; the edges selected by the edge mask whose two endpoints are
+kept; for every selected property the rows (values, decoded var-length values, missing flags) of
+the full read at the kept positions; the property metadata of the selected properties.
+
+Everything the property quantifies over is universally quantified: the store contents (ids,
+edges, properties of any dtype/trailing shape, var-length tables with ANY layout of the data
+array, missing masks, metadata), every sequence of `read_node_props` / `read_edge_props` calls
+(names, `None`, repeated, unknown names that raise), both masks (`None`, all-true, all-false, any
+pattern of the right length) and the element-wise dtype cast.  Unique node ids are not needed
+for the equality (they only make "the node with id u" well defined, see `kept_iff_index`). -/
+namespace GeffProps.C09
+open Geff.Np Geff.PRead
+
+/-- masks have one entry per node / edge (`None` is always fine) -/
+def MasksFit (s : Store) (nm em : Option (List Bool)) : Prop :=
+  (∀ m, nm = some m → m.length = s.ids.length) ∧ (∀ m, em = some m → m.length = s.edges.length)
+
+/-- **C09** — for every structurally valid store `s` (one row per node/edge in every property
+array, unique property names — what `validate_structure` accepts), every sequence `calls` of
+`read_*_props` calls on a fresh reader, and all masks of the right length: if the full read
+`read_to_memory` succeeds with `full`, the partial `build` succeeds and returns exactly
+`restrict (loaded node names) (loaded edge names) nm em full`.
+When no node mask is given the code does not look at the endpoints, so the equality then needs
+the stored edges to join stored nodes (`edgesClosed`, part of being a stored *graph*); with a
+node mask no such hypothesis is needed. -/
+theorem C09_build_eq_restrict (cast : Dtype → Val → Val) (s : Store) (calls : List Call)
+    (nm em : Option (List Bool)) (full : InMem)
+    (hwf : s.WF = true) (hmasks : MasksFit s nm em)
+    (hclosed : nm = none → s.edgesClosed = true)
+    (hfull : readToMemory cast s = .ok full) :
+    build cast (runCalls (Reader.init s) calls) nm em =
+      .ok (restrict (keys (runCalls (Reader.init s) calls).nodeProps)
+                    (keys (runCalls (Reader.init s) calls).edgeProps) nm em full) := by
+  have hst : (runCalls (Reader.init s) calls).store = s := runCalls_store _ _
+  have hinv := runCalls_inv (Reader.init s) calls (init_inv s)
+  apply build_eq_restrict_of_inv cast _ hinv nm em full
+  · rw [hst]; exact hwf
+  · rw [hst]; exact hmasks.1
+  · rw [hst]; exact hmasks.2
+  · rw [hst]; exact hclosed
+  · rw [hst]; exact hfull
+
+/-- **C09 (no dangling edge)** — whenever a `build` with a node mask succeeds (or without a node
+mask on a store whose edges join stored nodes), both endpoints of every returned edge are among
+the returned nodes.  No hypothesis on the full read. -/
+theorem C09_no_dangling_edge (cast : Dtype → Val → Val) (s : Store) (calls : List Call)
+    (nm em : Option (List Bool)) (out : InMem)
+    (hwf : s.WF = true) (hmasks : MasksFit s nm em)
+    (hclosed : nm = none → s.edgesClosed = true)
+    (hb : build cast (runCalls (Reader.init s) calls) nm em = .ok out) :
+    ∀ e ∈ out.edgeIds, e.1 ∈ out.nodeIds ∧ e.2 ∈ out.nodeIds := by
+  have hst : (runCalls (Reader.init s) calls).store = s := runCalls_store _ _
+  have hinv := runCalls_inv (Reader.init s) calls (init_inv s)
+  generalize runCalls (Reader.init s) calls = r at hst hinv hb
+  subst hst
+  simp only [Store.WF, Bool.and_eq_true] at hwf
+  rw [build_nf cast r nm em hmasks.1 hmasks.2 (inv_lenOk (propsWF_lenOk hwf.1) hinv.1)
+    (inv_lenOk (propsWF_lenOk hwf.2) hinv.2)] at hb
+  have hk : effMask nm em (filterByMask r.store.ids (selMask nm r.store.ids.length)) r.store.edges
+      = edgeKeep (filterByMask r.store.ids (selMask nm r.store.ids.length)) em r.store.edges := by
+    apply effMask_eq_edgeKeep _ _ _ _ hmasks.2
+    cases nm with
+    | some m => exact Or.inl (by simp)
+    | none =>
+      right
+      have hc := hclosed rfl
+      simp only [Store.edgesClosed, List.all_eq_true] at hc
+      simpa [selMask, filterByMask_replicate_true] using hc
+  rw [hk] at hb
+  cases h1 : loadPropsSel cast r.store.nodeMeta (selMask nm r.store.ids.length) r.nodeProps with
+  | error e => simp [h1] at hb
+  | ok np =>
+    simp only [h1, ok_bind] at hb
+    cases h2 : loadPropsSel cast r.store.edgeMeta
+        (edgeKeep (filterByMask r.store.ids (selMask nm r.store.ids.length)) em r.store.edges) r.edgeProps with
+    | error e => simp [h2] at hb
+    | ok ep =>
+      simp only [h2, ok_bind, pure_eq, Except.ok.injEq] at hb
+      subst hb
+      intro e he
+      have := mem_filter_zipWith _ _ _ e he
+      simpa using this
+
+/-- **C09 (metadata)** — the metadata of a successful `build` lists exactly the loaded properties. -/
+theorem C09_metadata_exact (cast : Dtype → Val → Val) (s : Store) (calls : List Call)
+    (nm em : Option (List Bool)) (out : InMem)
+    (hwf : s.WF = true) (hmasks : MasksFit s nm em)
+    (hb : build cast (runCalls (Reader.init s) calls) nm em = .ok out) :
+    (∀ k, k ∈ keys out.nodeMeta ↔ k ∈ keys out.nodeProps) ∧
+    (∀ k, k ∈ keys out.edgeMeta ↔ k ∈ keys out.edgeProps) := by
+  have hst : (runCalls (Reader.init s) calls).store = s := runCalls_store _ _
+  have hinv := runCalls_inv (Reader.init s) calls (init_inv s)
+  generalize runCalls (Reader.init s) calls = r at hst hinv hb
+  subst hst
+  simp only [Store.WF, Bool.and_eq_true] at hwf
+  rw [build_nf cast r nm em hmasks.1 hmasks.2 (inv_lenOk (propsWF_lenOk hwf.1) hinv.1)
+    (inv_lenOk (propsWF_lenOk hwf.2) hinv.2)] at hb
+  cases h1 : loadPropsSel cast r.store.nodeMeta (selMask nm r.store.ids.length) r.nodeProps with
+  | error e => simp [h1] at hb
+  | ok np =>
+    simp only [h1, ok_bind] at hb
+    cases h2 : loadPropsSel cast r.store.edgeMeta
+        (effMask nm em (filterByMask r.store.ids (selMask nm r.store.ids.length)) r.store.edges) r.edgeProps with
+    | error e => simp [h2] at hb
+    | ok ep =>
+      simp only [h2, ok_bind, pure_eq, Except.ok.injEq] at hb
+      subst hb
+      obtain ⟨k1, m1⟩ := loadPropsSel_keys _ _ _ _ _ h1
+      obtain ⟨k2, m2⟩ := loadPropsSel_keys _ _ _ _ _ h2
+      have key : ∀ (md : List (String × PropMeta)) (sel : List (String × ZarrProp)),
+          (∀ k ∈ keys sel, k ∈ keys md) → ∀ k, k ∈ keys (pruneMeta md sel) ↔ k ∈ keys sel := by
+        intro md sel hsub k
+        simp only [pruneMeta, keys, List.mem_map, List.mem_filter]
+        constructor
+        · rintro ⟨p, ⟨_, hp⟩, rfl⟩
+          have := (hasKey_iff p.1 sel).1 hp
+          simpa [keys] using this
+        · intro hk
+          have hk' : k ∈ keys sel := by simpa [keys] using hk
+          have := hsub k hk'
+          simp only [keys, List.mem_map] at this
+          obtain ⟨p, hp, rfl⟩ := this
+          exact ⟨p, ⟨hp, (hasKey_iff p.1 sel).2 hk'⟩, rfl⟩
+      exact ⟨fun k => by rw [k1]; exact key _ _ m1 k, fun k => by rw [k2]; exact key _ _ m2 k⟩
+
+/-- reading of `restrict`: the masked rows are the rows at the indices `np.where(mask)[0]`, in
+order — "every loaded property row still aligned with its node or edge" -/
+theorem restrict_rows_aligned {α} (rows : List α) (m : List Bool) (h : m.length ≤ rows.length) :
+    (whereIdx m).map (fun i => rows[i]?) = (filterByMask rows m).map some := by
+  have := whereFrom_get [] rows m h
+  simpa [whereIdx] using this
+
+/-- reading of `restrict`: an id is kept iff some node carrying it is selected by the mask; with
+unique ids that node is *the* node with this id. -/
+theorem kept_iff_index (ids : List Int) (m : List Bool) (u : Int) :
+    u ∈ filterByMask ids m ↔ ∃ i : Nat, ids[i]? = some u ∧ m[i]? = some true :=
+  mem_filterByMask_iff ids m u
+
+theorem kept_iff_index_nodup (ids : List Int) (hnd : ids.Nodup) (m : List Bool) (u : Int) (i : Nat)
+    (hi : ids[i]? = some u) : u ∈ filterByMask ids m ↔ m[i]? = some true := by
+  rw [kept_iff_index]
+  constructor
+  · rintro ⟨j, hj, hm⟩
+    have hij : i = j := by
+      obtain ⟨hil, hiv⟩ := List.getElem?_eq_some_iff.1 hi
+      obtain ⟨hjl, hjv⟩ := List.getElem?_eq_some_iff.1 hj
+      have hp := List.pairwise_iff_getElem.1 hnd
+      rcases Nat.lt_trichotomy i j with h | h | h
+      · exact absurd (hiv.trans hjv.symm) (hp i j hil hjl h)
+      · exact h
+      · exact absurd (hjv.trans hiv.symm) (hp j i hjl hil h)
+    subst hij; exact hm
+  · intro hm; exact ⟨i, hi, hm⟩
+
+/-! ## the full read is the trivial restriction; every mask, every selection: non-vacuity -/
+
+def exStore : Store :=
+  { ids := [5, 7, 9], edges := [(5, 7), (7, 9), (9, 9)],
+    nodeProps := [("t", { values := { trail := [], rows := [[.i 1], [.i 2], [.i 3]] },
+                          missing := some [false, true, false], data := none }),
+                  ("v", { values := { trail := [2], rows := [[.i 3, .i 2], [.i 0, .i 3], [.i 5, .i 0]] },
+                          missing := none, data := some [.i 10, .i 11, .i 12, .i 20, .i 21] })],
+    edgeProps := [("w", { values := { trail := [2], rows := [[.i 1, .i 2], [.i 3, .i 4], [.i 5, .i 6]] },
+                          missing := none, data := none })],
+    nodeMeta := [("t", { dtype := .i64, varlength := false, rest := "" }),
+                 ("v", { dtype := .i64, varlength := true, rest := "" })],
+    edgeMeta := [("w", { dtype := .i64, varlength := false, rest := "" })],
+    metaRest := "{}" }
+
+def castId : Dtype → Val → Val := fun _ v => v
+
+/-- the hypotheses of `C09_build_eq_restrict` are met by a concrete store with a var-length
+property whose data are NOT stored in element order, a missing mask and a 2-D edge property -/
+example : exStore.WF = true ∧ exStore.edgesClosed = true ∧ MasksFit exStore (some [true, false, true]) none ∧
+    (readToMemory castId exStore).isOk = true := by
+  refine ⟨by decide, by decide, ⟨by intro m h; cases h; rfl, by intro m h; cases h⟩, by decide⟩
+
+/-- and on it the masked build keeps nodes 5 and 9, only the edge (9,9), row-aligned values —
+the var-length rows `[20,21]`→…: element 0 is `data[3:5]`, element 2 is `data[5:5]` -/
+def exBuild : Option InMem :=
+  (build castId (runCalls (Reader.init exStore) [.nodes (some ["v"]), .edges none])
+    (some [true, false, true]) none).toOption
+
+example : exBuild.map (·.nodeIds) = some [5, 9] := by decide
+example : exBuild.map (·.edgeIds) = some [(9, 9)] := by decide
+example : exBuild.map (fun g => g.nodeProps.map (fun p => (p.1, p.2.values))) =
+    some [("v", .object [{ dtype := .i64, shape := [2], flat := [.i 20, .i 21] },
+                         { dtype := .i64, shape := [0], flat := [] }])] := by decide
+example : exBuild.map (fun g => keys g.nodeMeta) = some ["v"] := by decide
 
 end GeffProps.C09
